@@ -20,7 +20,7 @@ from mbv.tlc import MachineryError
 
 TOKENS = {
     "tiny": ("val", 1, -40), "mid": ("val", 1, -28), "small": ("val", -1, -10), "one": ("val", 1, 0),
-    "huge": ("val", 1, 40), "zero": ("zero", 0, 0), "nan": ("nan", 0, 0),
+    "huge": ("val", 1, 40), "big": ("val", -1, 10), "zero": ("zero", 0, 0), "nan": ("nan", 0, 0),
     "valueerror": ("raise", 1, 0), "linalgerror": ("raise", 2, 0),
 }
 PREV_POS = 1000.5
